@@ -55,6 +55,16 @@ def main():  # noqa: C901, PLR0915
             print(out[-1500:])
         rc, out = sh(f"git -C {wt} apply {os.path.join(seed, 'patch.diff')}")
         if rc:
+            # the seed was made against an earlier HEAD: try a three-way merge on the blobs named in the patch
+            rc, out2 = sh(f"git -C {wt} apply -3 {os.path.join(seed, 'patch.diff')}")
+            out += out2
+            if not rc:
+                sh(f"git -C {wt} reset -q")
+                rc2, rebased = sh(f"git -C {wt} diff")
+                meta["rebased"] = True
+                with open(os.path.join(seed, "patch.rebased.diff"), "w") as f:
+                    f.write(rebased)
+        if rc:
             print("patch does not apply:\n" + out)
             meta["applies"] = False
             return finish(args, seed, meta)
@@ -101,6 +111,9 @@ def finish(args, seed, meta):
     if args.keep_as:
         dst = os.path.join(VERIF, "seeded", args.keep_as)
         os.makedirs(dst, exist_ok=True)
+        if os.path.exists(os.path.join(seed, "patch.rebased.diff")):
+            shutil.copy(os.path.join(seed, "patch.diff"), os.path.join(dst, "patch.original.diff"))
+            shutil.copy(os.path.join(seed, "patch.rebased.diff"), os.path.join(seed, "patch.diff"))
         for f in ("patch.diff", "demo.py", "notes.md"):
             if os.path.exists(os.path.join(seed, f)):
                 shutil.copy(os.path.join(seed, f), os.path.join(dst, f))
